@@ -35,6 +35,8 @@ var Exclusions = []string{
 	"annexb-prefix",          // parameter sets with an Annex-B start code are stripped (camera quirk)
 	"latm-config-with-cpresent",
 	"generic-fmtp-not-canonical", // keys with upper case / blanks, values with ';' or outer blanks
+	"int-above-31-bits",          // numeric parameters are read back with strconv.ParseUint(.., 10, 31)
+	"non-ascii-control",          // byte-transparent in the code; outside the ASCII-modelled grammar
 }
 
 // Excluded draws a description with one of the exclusions applied.
@@ -193,6 +195,20 @@ func (g *gen) Excluded(which string) *DescSpec {
 		}
 		_ = f.Init()
 		setFmt(f)
+	case "int-above-31-bits":
+		switch r.IntN(3) {
+		case 0:
+			m0.Type = "video"
+			setFmt(&format.VP8{PayloadTyp: 96, MaxFS: ip(1 << 31)})
+		case 1:
+			m0.Type = "audio"
+			setFmt(&format.AC3{PayloadTyp: 96, SampleRate: 1 << 31, ChannelCount: 2})
+		default:
+			m0.Type = "audio"
+			setFmt(&format.LPCM{PayloadTyp: 96, BitDepth: 16, SampleRate: 48000, ChannelCount: 1 << 32})
+		}
+	case "non-ascii-control":
+		m0.Control = pick(r, []string{"trackID=ü", "日本/1", "a\x80b"})
 	default:
 		panic("exclusion " + which)
 	}
